@@ -101,3 +101,35 @@ func init() {
 		Rules:       []*Rule{ruleEOLState, ruleParseGate},
 	})
 }
+
+func init() {
+	Register(&Property{
+		ID: "C03",
+		Explanation: "Decides structural necessary conditions of total parsing: the result of a parser function that can return nil (the 'previous " +
+			"error' marker) is never dereferenced without a dominating non-nil test (R-NILRET, interprocedural source set, one-level callee " +
+			"summaries); no variable with an unresolved type enters a scope (R-SCOPETYPE); no non-literal expression carries a convertible " +
+			"composite type into wrapAny — the class behind the confirmed internal-error panics (R-FIXED).",
+		NotDecided:  "Termination, index ranges, nil values that travel through fields, and that line/column are correct (position arithmetic is value-level).",
+		Assumptions: []string{"field-borne nils are not tracked"},
+		Rules:       []*Rule{ruleNilRet, ruleScopeType, ruleFixed},
+	})
+	Register(&Property{
+		ID: "C04",
+		Explanation: "Decides the structural part of the typing rules: the literal/non-literal distinction on which assignability rests is applied at " +
+			"every expression-node, variable and return-type constructor (R-FIXED); every acceptance is followed by wrapAny with the same target " +
+			"(R-ACCEPTWRAP); inference of a map literal's type does not depend on Go map order (R-MAPRANGE).",
+		NotDecided:  "The content of accepts/matches/combineTypes (which cells of the matrix are true) and the operand checks' predicates — value-level.",
+		Assumptions: []string{},
+		Rules:       []*Rule{ruleFixed, ruleAcceptWrap, ruleMapRange},
+	})
+	Register(&Property{
+		ID: "C06",
+		Explanation: "Decides structural necessary conditions of 'formatting loses nothing': every token the parser accepts is represented or " +
+			"diagnosed and every end-of-line comment is recorded before its line is skipped (R-EOLSTATE, comment clause included); the formatter " +
+			"has a case for every node kind, so it never prints its placeholder (R-EXHAUST/format); every array/map literal node is registered " +
+			"in the layout table on every path that returns it (R-LAYOUTKEY).",
+		NotDecided:  "Token-sequence equality, re-parse equality, comment placement inside multi-line literals, expression re-binding — these need the output text.",
+		Assumptions: []string{},
+		Rules:       []*Rule{ruleEOLState, exhaustRule("format", 25), ruleLayoutKey},
+	})
+}
